@@ -8,6 +8,7 @@ pub mod dfa;
 pub mod ev;
 pub mod front;
 pub mod model;
+pub mod poison;
 pub mod sink;
 #[path = "../../../plain/src/scope.rs"]
 pub mod plain_scope;
